@@ -17,6 +17,7 @@ PLAN = {
     "assumptions": [
         "std Arc/Weak contract (ASSUMED, not re-verified): Weak::upgrade returns None once the strong count has reached 0 and otherwise yields a strong reference that keeps the value alive; Arc::try_unwrap returns Ok only when called by the sole strong owner and does so atomically w.r.t. concurrent upgrade; Drop of the last strong reference drops the value exactly once",
         "every interleaving clause of the statement (emitting threads racing into_inner / handle drop) is derived from the sequential contracts plus the Arc contract above; no concurrent schedule is executed (Kani has no threads)",
+        "c20_into_inner_vs_starting_emissions_rg: stubs on Atomic<usize>::{compare_exchange, load} restricted to the strong count of the handle's Arc (address = data pointer - 2 words: ArcInner layout, asserted by reading 1 there); Weak::upgrade is modelled by its effect (strong += 1, a real Arc<Rec> made with Arc::from_raw); bounded: <= 1 in flight at entry, <= 2 starts",
         "c20_into_inner_retry_rg runs the real Arc::try_unwrap with n <= 3 real upgraded references parked as in-flight emissions; only its RMW (compare_exchange on the strong count) is stubbed, with std semantics plus interference: one emission finishes after each failed attempt; the loop body is state-free apart from the Arc, so each retry is identical",
         "the wrapped recorder is a recording double (Rec); WeakRecorder is parametric in R: Recorder (no R-specific branches)",
         "arguments are chosen among two static names (one empty), two descriptions, four unit options, one static key/metadata; identity is checked by pointer+length, so no string content is interpreted",
@@ -43,6 +44,8 @@ PLAN = {
             H("c20_arc_contract_sanity", "real Arc, sequential: try_unwrap fails and returns the same Arc while an upgraded reference exists, succeeds after its release, upgrade() is None afterwards"),
             H("c20_into_inner_retry_rg", "into_inner loop with n real in-flight emissions released one per failed attempt (stub on the strong-count CAS): retries on the same Arc, every attempt while an emission is inside fails, exits exactly at the first attempt seeing strong == 1 (n+1 attempts), returns the original recorder un-finalised",
               kind="bounded", bound="n <= 3 in-flight emissions", replay=False, covers=2, sub="rg"),
+            H("c20_into_inner_vs_starting_emissions_rg", "into_inner against an environment that may also START emissions (Weak::upgrade) after any load of the strong count and before any try_unwrap attempt, and finishes one after a failed attempt: never panics, terminates, the successful CAS sees strong == 1 with no emission inside, recorder returned un-finalised (a check-then-act wait on strong_count breaks here)",
+              kind="bounded", bound="<= 1 emission in flight at entry, <= 2 started during the wait", replay=False, covers=2, sub="rg", timeout=900),
         ],
     }],
 }
